@@ -85,7 +85,7 @@ class Problem:
         extra = bool(rng.random() < 0.2) if extra is None else extra
         int_coords = bool(rng.random() < 0.15) if int_coords is None else int_coords
         if dtype_class is None:
-            dtype_class = str(rng.choice(DTYPE_CLASSES))
+            dtype_class = "mixed" if (ncomp > 1 and rng.random() < 0.25) else str(rng.choice(DTYPE_CLASSES))
         if dtype_class == "mixed" and ncomp == 1:
             dtype_class = str(rng.choice(["int16", "int32", "int64", "float32"]))
         n = n or pick_size(rng, tier, two_d, hi=hi)
